@@ -378,6 +378,115 @@ theorem gen_emit_index_fields :
       [(Gen.TagAuthorizerBurn, "Burner"), (Gen.TagAddBurnTicket, "EthereumAddress"), (Gen.TagAddBridgeMint, "UserID")] := by
   decide
 
+/-! ### the ORDER of the merger list: inserts of a row before its updates
+
+`WorkEvents` applies the merged events to the query database in the order of the merger list, so for two tags that
+address the same row the list order decides what the row holds after a block in which both occur. -/
+
+/-- **update_after_insert_last_write** (any table, any block): if the row of `k` exists when the update of `k` is
+applied (it was there before the block, or the block's insert of `k` is applied earlier in the list) and nothing later
+touches `k`, the row ends the block with the updated value — the last value the block's events wrote. -/
+theorem update_after_insert_last_write (tbl : List (String × Nat)) (pre post : List RowOp) (k : String) (y : Nat)
+    (hrow : lookup (applyRows tbl pre) k ≠ none) (hpost : ∀ op ∈ post, op.key ≠ k) :
+    lookup (applyRows tbl (pre ++ .update k y :: post)) k = some y := by
+  rw [applyRows_append]
+  show lookup (applyRows (applyRow (applyRows tbl pre) (.update k y)) post) k = some y
+  rw [applyRows_untouched post _ k hpost]
+  simp only [applyRow]
+  cases h : lookup (applyRows tbl pre) k with
+  | none => exact absurd h hrow
+  | some _ => simp [lookup_upsert]
+
+theorem insert_then_update (tbl : List (String × Nat)) (k : String) (x y : Nat) :
+    lookup (applyRows tbl [.insert k x, .update k y]) k = some y := by
+  have := update_after_insert_last_write tbl [.insert k x] [] k y (by simp [applyRows, applyRow, lookup_upsert]) (by simp)
+  simpa using this
+
+/-- **update_before_insert_stale** — the negation witness for any inverted pair: for a row that does not exist yet, an
+update applied BEFORE the insert matches nothing and the insert then stores the older value. -/
+theorem update_before_insert_stale (tbl : List (String × Nat)) (k : String) (x y : Nat) (h : lookup tbl k = none) :
+    lookup (applyRows tbl [.update k y, .insert k x]) k = some x := by
+  simp [applyRows, applyRow, h, lookup_upsert]
+
+/-- … and an additive update (a reward) applied before the insert is lost altogether, while after it it counts. -/
+theorem add_before_insert_lost (tbl : List (String × Nat)) (k : String) (x y : Nat) (h : lookup tbl k = none) :
+    lookup (applyRows tbl [.add k y, .insert k x]) k = some x ∧
+    lookup (applyRows tbl [.insert k x, .add k y]) k = some ((x + y) % U64) := by
+  simp [applyRows, applyRow, h, lookup_upsert]
+
+inductive Role where
+  | ins | upd
+deriving DecidableEq, Repr
+
+/-- tables: 1 read_pools, 2 blobbers, 3 authorizers, 4 miners, 5 sharders, 6 validators, 7 allocations,
+8 allocation_blobber_terms, 9 challenges, 10 delegate_pools, 11 provider_rewards, 12 users -/
+def rolesOf : List (Nat × List (Nat × Role)) := [
+  (Gen.TagAddOrOverwriteUser, [(12, .ins)]),
+  (Gen.TagAddMiner, [(4, .ins), (11, .ins)]), (Gen.TagAddSharder, [(5, .ins), (11, .ins)]),
+  (Gen.TagAddBlobber, [(2, .ins), (11, .ins)]), (Gen.TagUpdateBlobber, [(2, .upd)]),
+  (Gen.TagAddAuthorizer, [(3, .ins), (11, .ins)]), (Gen.TagUpdateAuthorizer, [(3, .upd)]),
+  (Gen.TagAddOrOverwiteValidator, [(6, .ins), (11, .ins)]),
+  (Gen.TagShutdownProvider, [(2, .upd), (3, .upd), (4, .upd), (5, .upd), (6, .upd)]),
+  (Gen.TagKillProvider, [(2, .upd), (3, .upd), (4, .upd), (5, .upd), (6, .upd)]),
+  (Gen.TagAddAllocation, [(7, .ins)]), (Gen.TagUpdateAllocation, [(7, .upd)]), (Gen.TagUpdateAllocationStakes, [(7, .upd)]),
+  -- TagUpdateAllocationBlobberTerm has a merger and a handler but no emit site (Gen.unemittedTags): no role
+  (Gen.TagUpdateAllocationBlobberTerm, []),
+  (Gen.TagAddOrOverwriteAllocationBlobberTerm, [(8, .ins)]), (Gen.TagDeleteAllocationBlobberTerm, []),
+  (Gen.TagInsertReadpool, [(1, .ins)]), (Gen.TagUpdateReadpool, [(1, .upd)]),
+  (Gen.TagAddChallenge, [(9, .ins)]), (Gen.TagAddChallengeToAllocation, [(7, .upd)]), (Gen.TagUpdateChallenge, [(9, .upd)]),
+  (Gen.TagAddOrUpdateChallengePool, []),
+  (Gen.TagUpdateBlobberChallenge, [(2, .upd)]), (Gen.TagUpdateAllocationChallenge, [(7, .upd)]),
+  (Gen.TagUpdateBlobberAllocatedSavedHealth, [(2, .upd)]), (Gen.TagUpdateBlobberTotalStake, [(2, .upd)]),
+  (Gen.TagUpdateBlobberTotalOffers, [(2, .upd)]),
+  (Gen.TagStakePoolReward, [(11, .upd), (10, .upd)]), (Gen.TagStakePoolPenalty, [(11, .upd), (10, .upd)]),
+  (Gen.TagAddDelegatePool, [(10, .ins)]),
+  (Gen.TagUpdateMinerTotalStake, [(4, .upd)]), (Gen.TagUpdateSharderTotalStake, [(5, .upd)]),
+  (Gen.TagUpdateAuthorizerTotalStake, [(3, .upd)]),
+  (Gen.TagAddTransactions, []), (Gen.TagAddWriteMarker, []), (Gen.TagAddReadMarker, []),
+  (Gen.TagUpdateAllocationStat, [(7, .upd)]), (Gen.TagUpdateBlobberStat, [(2, .upd)]),
+  (Gen.TagUpdateValidator, [(6, .upd)]), (Gen.TagUpdateValidatorStakeTotal, [(6, .upd)]),
+  (Gen.TagMinerHealthCheck, [(4, .upd)]), (Gen.TagSharderHealthCheck, [(5, .upd)]), (Gen.TagBlobberHealthCheck, [(2, .upd)]),
+  (Gen.TagAuthorizerHealthCheck, [(3, .upd)]), (Gen.TagValidatorHealthCheck, [(6, .upd)]),
+  (Gen.TagAddBurnTicket, []), (Gen.TagUpdateUserCollectedRewards, []),
+  (Gen.TagLockStakePool, []), (Gen.TagUnlockStakePool, []), (Gen.TagLockReadPool, []), (Gen.TagUnlockReadPool, []),
+  (Gen.TagLockWritePool, []), (Gen.TagUnlockWritePool, []), (Gen.TagUpdateUserPayedFees, []),
+  (Gen.TagAuthorizerBurn, [(3, .upd)]), (Gen.TagAddBridgeMint, [(3, .upd), (12, .ins)])]
+
+def rolesOfTag (tag : Nat) : Option (List (Nat × Role)) := (rolesOf.find? (·.1 = tag)).map (·.2)
+
+/-- all (table, update tag, insert tag) triples whose update-kind merger stands BEFORE the insert-kind merger -/
+def inversions : List Merger → List (Nat × Nat × Nat)
+  | [] => []
+  | m :: rest =>
+    (rest.flatMap fun m' =>
+      ((rolesOfTag m.tag).getD []).flatMap fun r =>
+        if r.2 = .upd ∧ ((rolesOfTag m'.tag).getD []).contains (r.1, .ins) then [(r.1, m.tag, m'.tag)] else []) ++
+    inversions rest
+
+/-- inversions of the source as found (finding C20:update-applied-before-insert:delegate_pools): the rewards and
+penalties of a block are applied before the delegate pools the block adds -/
+def knownInversions : List (Nat × Nat × Nat) :=
+  [(10, Gen.TagStakePoolReward, Gen.TagAddDelegatePool), (10, Gen.TagStakePoolPenalty, Gen.TagAddDelegatePool)]
+
+/-- every merger's tag has a row role assigned (fail closed: a new merger must be classified here) -/
+theorem gen_all_mergers_have_roles : Gen.mergers.all (fun m => (rolesOfTag m.tag).isSome) = true := by decide
+
+/-- **insert_before_update_for_same_row** (re-proved on every regeneration): for every pair of tags that address the
+same row, the insert-kind merger precedes the update-kind merger in the extracted list — except the recorded
+delegate-pool inversions. Moving `mergeUpdateReadPoolEvents()` in front of `mergeInsertReadPoolEvents()` makes this
+false. The one tag left without a role although it has an update handler, `TagUpdateAllocationBlobberTerm` (listed before
+the add-or-overwrite merger), is never emitted (`Gen.unemittedTags`, checked by the translator). -/
+theorem insert_before_update_for_same_row :
+    (inversions Gen.mergers).all (fun i => knownInversions.contains i) = true ∧
+    Gen.unemittedTags = [Gen.TagUpdateAllocationBlobberTerm] := by
+  decide
+
+/-- the source as found: a delegate pool added and rewarded in one block (stake lock, then a reward of that provider
+in the same block) — the reward is applied before the pool row exists (negation of the full order statement;
+meant to stop checking when the list is reordered). -/
+theorem gen_delegate_pool_inversion_now :
+    (inversions Gen.mergers).contains (10, Gen.TagStakePoolReward, Gen.TagAddDelegatePool) = true := by decide
+
 /-! ### the commit path -/
 
 /-- every link whose error must reach `ProcessEvents`' commit-or-rollback decision -/
